@@ -14,7 +14,7 @@ func init() {
 	replayers["tokmap"] = replayTokMap
 }
 
-var hostileLits = []string{`"`, `\`, "`", `a"b`, `\n`, `\\`, `%d`, `{{`, `}}`, `*/`, `/*`, `x y`, ` `, `é`, `日本`, `'`, `'a'`, `<<`, `>>`, `$0`, "\t", `a\`, `"q"`}
+var hostileLits = []string{`"`, `\`, "`", `a"b`, `\n`, `\\`, `%d`, `{{`, `}}`, `*/`, `/*`, `x y`, ` `, `é`, `日本`, `'`, `'a'`, `<<`, `>>`, `$0`, "\t", `a\`, `"q"`, "EOF", "unknown", "Type", "nil"}
 
 // tokMapEntry builds the record TokenMap.tla reads from a lexer-side or parser-side dump.
 func tokMapEntry(terms []string, tokid []string, typeOf []int, unknown []int, lexacc [][2]any, ncols int) map[string]any {
@@ -46,8 +46,34 @@ func checkC10(c *Ctx) {
 		o.MaxLits = 3
 		lgs = append(lgs, genLexGrammar(rng, o))
 	}
-	lb := c.buildLexBatch("c10lex", lgs)
-	for _, cs := range lb.Cases {
+	// hostile spellings also on the lexer's side (its action table names or numbers the tokens)
+	for i, g := range lgs {
+		if len(g.Lits) == 0 || i%2 == 1 {
+			continue
+		}
+		h := hostileLits[(i/2)%len(hostileLits)]
+		dup := strings.ContainsAny(h, "\"\\") && strings.Contains(h, "`")
+		for _, l := range g.Lits {
+			dup = dup || l == h
+		}
+		if !dup {
+			g.Lits[0] = h
+			g.computeAtoms()
+		}
+	}
+	// half of the grammars are generated with -v: the terminals are listed once more for
+	// terminals.txt on that path
+	var lgsPlain, lgsV []*LexGrammar
+	for i, g := range lgs {
+		if i%2 == 0 {
+			lgsPlain = append(lgsPlain, g)
+		} else {
+			lgsV = append(lgsV, g)
+		}
+	}
+	lb := c.buildLexBatch("c10lex", lgsPlain)
+	lbv := c.buildLexBatch("c10lexv", lgsV, "-v")
+	for _, cs := range append(append([]*LexCase{}, lb.Cases...), lbv.Cases...) {
 		var terms []string
 		for _, t := range cs.Abs.Toks {
 			if t.Kind == "tok" {
@@ -71,13 +97,14 @@ func checkC10(c *Ctx) {
 		// TypeOf was requested for the token names in Abs order (kind tok only)
 		entries = append(entries, tokMapEntry(terms, cs.Dump.TokId, cs.Dump.TypeOf, []int{0}, nil, 0))
 		texts = append(texts, cs.Text)
-		flagsOf = append(flagsOf, nil)
+		flagsOf = append(flagsOf, cs.Flags)
 		if len(terms) >= 3 {
 			c.Distinct(cs.Text)
 		}
 	}
 	c.lexProduct(lb, []string{"VerdictAgree", "LiveAgree"})
-	c.Add("evaluations", int64(len(lb.Cases)))
+	c.lexProduct(lbv, []string{"VerdictAgree", "LiveAgree"})
+	c.Add("evaluations", int64(len(lb.Cases)+len(lbv.Cases)))
 
 	// ---- combined and parser-only grammars, hostile literal spellings
 	var sgs []*SynGrammar
@@ -93,7 +120,8 @@ func checkC10(c *Ctx) {
 		}
 		for k := range g.Terms {
 			if g.IsLit[k] && rng.Intn(2) == 0 {
-				h := hostileLits[rng.Intn(len(hostileLits))]
+				// every spelling of the pool is used in every run: the pool is walked, not sampled
+				h := hostileLits[(i*2+k)%len(hostileLits)]
 				if !used[h] && !(strings.ContainsAny(h, "\"\\") && strings.Contains(h, "`")) {
 					used[h] = true
 					g.Terms[k] = h
@@ -104,6 +132,9 @@ func checkC10(c *Ctx) {
 		if i%3 == 0 {
 			g.NoLexDefs = true
 			fl = []string{"-a", "-no_lexer"}
+		}
+		if i%4 == 1 {
+			fl = append(fl, "-v")
 		}
 		sgs = append(sgs, g)
 		sflags = append(sflags, fl)
